@@ -1,7 +1,7 @@
 #!/usr/bin/env python3
 """Run the checks against the independently written breaking changes under /verif/seeded/<name>/ (patch.diff + meta.json).
 
-usage: tools/seeded.py [PROP ...]   -> one line per seeded change, last line = JSON list of results
+usage: tools/seeded.py [--all] [--name TEXT] [PROP ...]   -> one line per seeded change, last line = JSON list of results
 Each patch is applied to a scratch copy of /repo (never to /repo itself), the property's check is run with --repo, and
 the change counts as `caught` when the check exits 1 with a VIOLATION line."""
 import json, os, subprocess, sys, tempfile, shutil, glob
@@ -58,13 +58,18 @@ def main():
     if '--all' in args:       # run every property's check against each change (which checks catch which changes)
         ALL = True
         args.remove('--all')
+    name = None
+    if '--name' in args:      # only the changes whose directory name contains the given text
+        i = args.index('--name')
+        name = args[i + 1]
+        del args[i:i + 2]
     want = set(args)
     dirs = sorted(d for d in glob.glob(os.path.join(VERIF, 'seeded', '*')) if os.path.exists(os.path.join(d, 'meta.json')))
     sel = []
     for d in dirs:
         meta = json.load(open(os.path.join(d, 'meta.json')))
         props = meta['property'] if isinstance(meta['property'], list) else [meta['property']]
-        if not want or want & set(props):
+        if (not want or want & set(props)) and (name is None or name in os.path.basename(d)):
             sel.append(d)
     from concurrent.futures import ThreadPoolExecutor
     with ThreadPoolExecutor(max_workers=int(os.environ.get('CVA_JOBS', '6'))) as ex:
